@@ -20,6 +20,12 @@ Configuration axes (drawn per case)
             0.41 d rotation, as Test_SetW_OOP_OrbitTides/test_c; a star that is its own tidal host cannot have tides
             on) => dual-body orbital derivatives; the host's heating and dUdM/dUdw/dUdO are observed too.  Only the
             world and its orbit have a history.  The single-body functional API is then not asked for de/dt, da/dt, dn/dt.
+  second    1 history in 4: a SECOND tidal world shares the orbit - the other base (other mass/radius) with its own
+            independently drawn model / rheology / cooling / blank / sync / obl / trunc / lmax and its own model state.
+            Every per-world operation below addresses either world (4th element of the op); 2 in 5 operations of such a
+            history are `orbit.set_states` (below); the model / fresh / functional / exception oracles are evaluated for
+            BOTH worlds after every step (the fresh reference is one fresh orbit holding both fresh worlds).  About
+            2x the cost per step, hence the fraction.
   blank     False: the world starts in the orbit its config ships with (P/a, e); True: those keys are stripped, the
             world starts with no orbit at all and quantities appear as state arrives.
   sync, obl (obliquity_tides_on), trunc in {2,6}, lmax 2 (3 for layered worlds in the thorough tier),
@@ -29,6 +35,12 @@ Operations (values log-uniform / uniform, see `_value` and `DOMAIN`); 3 of 4 his
 world.set_state and layered ones with a temperature for every tidal layer, so that the tides are live early
   orbit.set_state(world, <non-empty subset of {one of P|n|a, e}>)    [deferred variant: call_orbit_change=False, then
                                                                      the documented orbit.orbit_changed(world, flags)]
+  orbit.set_states([worlds...], eccentricities=[...], orbital_periods|orbital_frequencies|semi_major_axes=[...])  the orbit's
+                                                                     BATCHED setter (two-world histories): per world and
+                                                                     per field independently a value or None, either list
+                                                                     order or a single world, worlds may use different
+                                                                     units [deferred: call_orbit_change=False, then
+                                                                     orbit.orbit_changed(world, <its own flags>) per world]
   orbit.set_<field>(world, v), world.<field> = v (property setters) for P, n, a, e
   world.set_state(<non-empty subset of {one of P|n|a, e, spin_period|spin_frequency, obliquity}>)
   world.set_spin_period / set_spin_frequency / set_obliquity (v)     [deferred: call_updates=False, then
@@ -111,6 +123,8 @@ Sensitivity (tools/mut.py C13 ..., quick tier, final module; all CAUGHT unless s
   orbit/physics.py orbit_changed: drop self.dissipation_changed(w)    -> MISSED, equivalent mutant: collapse_modes already
                                                                          reaches orbit.dissipation_changed through world.dissipation_changed
   --patch fixes/revert-de31ebe.diff                                   -> exception/TypingError, where cooling_models(njit typing)
+  seeded/C13-5 (set_states notifies every world with the LAST world's flags) -> fresh/{unique_tidal_frequencies,
+                                                                         tidal_heating_global,...}, worlds 2, via orbit.set_states
   seeded/C13-1, seeded/C13-2 (tools/seed_catch.sh)                    -> fresh/global_love_by_orderl (fixed_q, ctl_q); fresh/de/dt,da/dt
   orbit/base.py set_state: drop the host update of the set_by_world / deferred branch -> fresh/host_* (host_tides family)
 """
@@ -132,7 +146,8 @@ LEVEL_TEXT = ('Generated-input exploration of setter/set_state histories (<= 12 
               'not for all histories.')
 LEVEL_NOTE = ('The fresh world is built by the same code (so a defect that does not depend on history is invisible here; C09-C12 cover '
               'the values themselves); the functional API was shown to be the same calculation bit-for-bit on fresh CPL/CTL worlds. '
-              'Deferred-update flags are only used together with the explicit update their docstring names. Host/star has tides off.')
+              'Deferred-update flags are only used together with the explicit update their docstring names. At most two tidal worlds per orbit; '
+              'the host is the star (tides off) or a separate CPL host with a fixed state.')
 CASES = {'quick': 1600, 'thorough': 24000}
 SHARDS = {'quick': 16, 'thorough': 16}
 TIMEOUT = {'quick': 1500, 'thorough': 4 * 3600}
@@ -155,7 +170,9 @@ F_RTOL_FALLBACK = 1e-9   # functional clause when the cancelling-term scale has 
 KEPLER_RTOL = 1e-13
 
 RULE = ('Hypothesis draws a configuration (model cpl|ctl|ctl_q|layered x base earth|io x rheology maxwell|andrade x cooling off|convection|conduction x blank-start x '
-        'force_spin_sync x obliquity tides x truncation 2|6 x scalar|array(3)) and a history of 1..12 (thorough 40) operations from '
+        'force_spin_sync x obliquity tides x truncation 2|6 x scalar|array(3) x host tides; 1 history in 4 has a SECOND tidal world with its own '
+        'independently drawn axes and model state in the same orbit, ops then address either world, 2 in 5 of them are the batched '
+        'orbit.set_states with per-world independent value-or-None entries, and both worlds are checked after every step) and a history of 1..12 (thorough 40) operations from '
         'the rule set (orbit.set_state subsets, individual orbit setters, world property setters, world.set_state subsets, spin/'
         'obliquity setters, fixed_q/fixed_dt setters, tides.set_state, orbit.time, layer temperature; deferred variants followed by the '
         'documented explicit update; 3 of 4 histories primed with a full world.set_state, layered ones with layer temperatures). '
@@ -172,6 +189,7 @@ ASSUMPTIONS = ['fresh world: build config carries fixed_q/fixed_dt, layer temper
                'a setter that raises in the history but not for a fresh world in the same state (or the reverse) is a failure; both raising '
                'the same exception type ends the history without verdict',
                'Kepler: a^3 n^2 = G(M+m), P = 2 pi/n/86400 to 1e-13 (G from TidalPy.constants)',
+               'two-world histories (1 in 4): one fresh orbit holding both fresh worlds is the reference; orbit.time is one value per orbit',
                'only the most upstream differing quantity of the first failing step is reported per history']
 
 MODELS = ['cpl', 'ctl', 'ctl_q', 'layered']
@@ -343,11 +361,11 @@ def _op(draw, cfg):
 
 
 @st.composite
-def _case(draw, tier):
+def _world_axes(draw, tier, base=None):
     model = draw(st.sampled_from(['cpl', 'cpl', 'ctl', 'ctl_q', 'layered', 'layered', 'layered']))
-    cfg = {
+    return {
         'model': model,
-        'base': draw(st.sampled_from(['earth', 'io'])),
+        'base': base or draw(st.sampled_from(['earth', 'io'])),
         'rheology': draw(st.sampled_from(['maxwell', 'andrade'])) if model == 'layered' else 'maxwell',
         'cooling': draw(st.sampled_from(['off', 'convection', 'convection', 'conduction', 'conduction'])) if model == 'layered' else 'off',
         'blank': draw(st.sampled_from([False, False, True])),
@@ -355,33 +373,74 @@ def _case(draw, tier):
         'obl': draw(st.booleans()),
         'trunc': draw(st.sampled_from([2, 6])),
         'lmax': draw(st.sampled_from([2, 2, 3])) if (tier == 'thorough' and model == 'layered') else 2,
-        'array': draw(st.sampled_from([False, False, True])),
     }
-    # second configuration family: the HOST dissipates too (dual-body orbital derivatives); global-approx worlds only
-    cfg['host_tides'] = bool(model != 'layered' and draw(st.sampled_from([False, False, True])))
-    n = draw(st.integers(2, MAX_STEPS[tier]))
-    ops = []
-    if model == 'layered' and draw(st.sampled_from([True, True, True, True, False])):
+
+
+@st.composite
+def _set_states_op(draw, array):
+    """orbit.set_states([...]): the orbit's BATCHED multi-world setter.  The entry of every world is generated independently
+    (per world and per field: a value or None); the list may name the worlds in either order or only one of them."""
+    order = draw(st.sampled_from([[0, 1], [0, 1], [0, 1], [1, 0], [1, 0], [0], [1]]))
+    entries = [{}, {}]
+    for k in order:
+        if draw(st.sampled_from([True, True, False])):
+            entries[k]['eccentricity'] = draw(_value('eccentricity', array))
+        if draw(st.sampled_from([True, False, False])):
+            f = draw(st.sampled_from(ORB_KEYS))
+            entries[k][f] = draw(_value(f, array))
+    if not any(entries[k] for k in order):
+        entries[order[0]]['eccentricity'] = draw(_value('eccentricity', array))
+    defer = draw(st.booleans()) and draw(st.booleans())
+    return ['orbit.set_states', {'order': order, 'entries': entries}, bool(defer)]
+
+
+def _prime(draw, wcfg, w, ops):
+    if wcfg['model'] == 'layered' and draw(st.sampled_from([True, True, True, True, False])):
         # most layered histories start by giving every tidal layer a temperature (otherwise no strength, no tides)
-        for k in range(len(BASES[cfg['base']]['tidal_layers'])):
+        for k in range(len(BASES[wcfg['base']]['tidal_layers'])):
             ops.append(['layer.temperature', {'layer': 'tidal%d' % k, 'via': 'set_temperature',
-                                              'temperature': draw(_value('temperature', cfg['array']))}, False])
+                                              'temperature': draw(_value('temperature', wcfg['array']))}, False] + w)
     if draw(st.sampled_from([True, True, True, False])):
         # most histories are primed with a complete state so that the tides are live early (a world that is not
         # spin-locked computes nothing until it has a spin; a blank world nothing until it has an orbit)
-        arr = cfg['array']
+        arr = wcfg['array']
         kw = {}
         f = draw(st.sampled_from(ORB_KEYS))
         kw[f] = draw(_value(f, arr))
         kw['eccentricity'] = draw(_value('eccentricity', arr))
-        if not cfg['sync']:
+        if not wcfg['sync']:
             f = draw(st.sampled_from(SPIN_KEYS))
             kw[f] = draw(_value(f, arr))
         if draw(st.booleans()):
             kw['obliquity'] = draw(_value('obliquity', arr))
-        ops.append(['world.set_state', kw, False])
+        ops.append(['world.set_state', kw, False] + w)
+
+
+@st.composite
+def _case(draw, tier):
+    cfg = draw(_world_axes(tier))
+    cfg['array'] = draw(st.sampled_from([False, False, True]))
+    # second configuration family: the HOST dissipates too (dual-body orbital derivatives); global-approx worlds only
+    cfg['host_tides'] = bool(cfg['model'] != 'layered' and draw(st.sampled_from([False, False, True])))
+    # third family (TWO_WORLD_FRACTION = 1 in 4 histories): a SECOND tidal world of the other base (other mass/radius) with its
+    # own independently drawn axes and its own model state shares the orbit; ops address either world and 2 in 5 of them
+    # are the orbit's batched setter orbit.set_states; both worlds are checked after every step (about 2x the cost per step)
+    if draw(st.sampled_from([False, False, False, True])):
+        cfg['second'] = draw(_world_axes(tier, base='io' if cfg['base'] == 'earth' else 'earth'))
+    wcfgs = _world_cfgs(cfg)
+    n = draw(st.integers(2, MAX_STEPS[tier]))
+    ops = []
+    for k, wc in enumerate(wcfgs):
+        _prime(draw, wc, [k] if len(wcfgs) > 1 else [], ops)
     while len(ops) < n:
-        ops.append(draw(_op(cfg)))
+        if len(wcfgs) > 1:
+            if draw(st.sampled_from([True, True, False, False, False])):
+                ops.append(draw(_set_states_op(cfg['array'])))
+            else:
+                k = draw(st.sampled_from([0, 1]))
+                ops.append(draw(_op(wcfgs[k])) + [k])
+        else:
+            ops.append(draw(_op(cfg)))
     # the invariant is evaluated after EVERY step (exact attribution of the first stale quantity to the field just written);
     # the `check` list stays in the case format so that a replay can restrict the checked steps
     check = [True] * len(ops)
@@ -426,6 +485,18 @@ def fixed_cases(tier):
                         ['layer.temperature', {'layer': 'tidal1', 'via': 'set_temperature', 'temperature': 2000.0}, False],
                         ['layer.temperature', {'layer': 'tidal0', 'via': 'property', 'temperature': 1000.0}, False],
                         ['layer.temperature', {'layer': 'tidal0', 'via': 'property', 'temperature': 1000.0}, False]]})
+    # two worlds in one orbit, orbit.set_states with per-world different kinds of change (witness of seeded/C13-5: a batched
+    # setter that notifies every world with the LAST world's flags leaves the first world's tidal terms at the old e)
+    cfg = {'model': 'cpl', 'base': 'earth', 'rheology': 'maxwell', 'cooling': 'off', 'blank': False, 'sync': True, 'obl': False,
+           'trunc': 2, 'lmax': 2, 'array': False, 'host_tides': False,
+           'second': {'model': 'ctl', 'base': 'io', 'rheology': 'maxwell', 'cooling': 'off', 'blank': True, 'sync': False,
+                      'obl': True, 'trunc': 6, 'lmax': 2}}
+    out.append({'config': cfg, 'check': [True] * 5,
+                'ops': [['world.set_state', {'orbital_period': 50.0, 'eccentricity': 0.1}, False, 0],
+                        ['world.set_state', {'orbital_period': 12.0, 'eccentricity': 0.05, 'spin_period': 3.0, 'obliquity': 0.2}, False, 1],
+                        ['orbit.set_states', {'order': [0, 1], 'entries': [{'eccentricity': 0.3}, {}]}, False],
+                        ['orbit.set_states', {'order': [0, 1], 'entries': [{'eccentricity': 0.2}, {'orbital_period': 20.0}]}, False],
+                        ['fixed.set', {'fixed_q': 50.0}, False, 0]]})
     return out
 
 
@@ -433,29 +504,68 @@ def required_labels(tier):
     return (['model:' + m for m in MODELS] + ['stale:%s_only_after_freq' % k for k in STALE_KINDS]
             + ['sync:True', 'sync:False', 'obl:True', 'obl:False', 'trunc:2', 'trunc:6', 'array', 'scalar',
                'blank:True', 'blank:False', 'rheology:maxwell', 'rheology:andrade', 'cooling:off', 'cooling:convection', 'cooling:conduction', 'deferred', 'functional-checked',
-               'host_tides:True', 'host_tides:False', 'dual-body-checked'])
+               'host_tides:True', 'host_tides:False', 'dual-body-checked',
+               'worlds:1', 'worlds:2', 'op:orbit.set_states', 'batch:mixed', 'batch:mixed-uncovered-live', 'batch:both-live-checked'])
+
+
+def _axes_ok(cfg):
+    if cfg['model'] not in MODELS or cfg['base'] not in BASES or cfg['rheology'] not in ('maxwell', 'andrade'):
+        return False
+    if cfg.get('cooling', 'off') not in ('off', 'convection', 'conduction') or (cfg['model'] != 'layered' and cfg.get('cooling', 'off') != 'off'):
+        return False
+    if cfg['trunc'] not in (2, 6) or cfg['lmax'] not in (2, 3) or (cfg['lmax'] == 3 and cfg['model'] != 'layered'):
+        return False
+    return all(isinstance(cfg[k], bool) for k in ('blank', 'sync', 'obl'))
+
+
+def _value_ok(f, v, array):
+    vals = v if isinstance(v, list) else [v]
+    if array != isinstance(v, list) or (array and len(vals) != NARR):
+        return False
+    for x in vals:
+        if not isinstance(x, float) or not math.isfinite(x):
+            return False
+        if f == 'eccentricity' and not 0.0 <= x <= 0.6:
+            return False
+        if f in DOMAIN and not DOMAIN[f][0] <= x <= DOMAIN[f][1]:
+            return False
+    return True
 
 
 def in_domain(case):
     try:
         cfg = case['config']
-        if cfg['model'] not in MODELS or cfg['base'] not in BASES or cfg['rheology'] not in ('maxwell', 'andrade'):
+        if not _axes_ok(cfg) or not isinstance(cfg['array'], bool):
             return False
-        if cfg.get('cooling', 'off') not in ('off', 'convection', 'conduction') or (cfg['model'] != 'layered' and cfg.get('cooling', 'off') != 'off'):
-            return False
-        if cfg['trunc'] not in (2, 6) or cfg['lmax'] not in (2, 3) or (cfg['lmax'] == 3 and cfg['model'] != 'layered'):
-            return False
-        for k in ('blank', 'sync', 'obl', 'array'):
-            if not isinstance(cfg[k], bool):
-                return False
         if not isinstance(cfg.get('host_tides', False), bool) or (cfg.get('host_tides') and cfg['model'] == 'layered'):
             return False
+        if cfg.get('second') is not None and not (_axes_ok(cfg['second']) and cfg['second']['base'] != cfg['base']):
+            return False
+        wcfgs = _world_cfgs(cfg)
         ops = case['ops']
         if not (1 <= len(ops) <= 40) or len(case['check']) != len(ops):
             return False
-        for kind, kw, defer in ops:
+        for op in ops:
+            if len(op) not in (3, 4):
+                return False
+            kind, kw, defer = op[:3]
+            if len(op) == 4 and op[3] not in range(len(wcfgs)):
+                return False
             if not isinstance(defer, bool) or not kw:
                 return False
+            if kind == 'orbit.set_states':
+                order, entries = kw['order'], kw['entries']
+                if len(wcfgs) != 2 or order not in ([0, 1], [1, 0], [0], [1]) or len(entries) != 2:
+                    return False
+                if not any(entries[k] for k in order):
+                    return False
+                for ent in entries:
+                    if len([f for f in ent if f in ORB_KEYS]) > 1 or any(f not in ORB_KEYS + ['eccentricity'] for f in ent):
+                        return False
+                    if not all(_value_ok(f, v, cfg['array']) for f, v in ent.items()):
+                        return False
+                continue
+            cfg = wcfgs[_op_world(op)]
             if kind == 'layer.temperature' and (kw.get('layer') not in ('tidal0', 'tidal1', 'other')
                                                 or kw.get('via') not in ('set_temperature', 'property', 'set_state')):
                 return False
@@ -496,8 +606,24 @@ def in_domain(case):
 
 
 def shrink_hints(case):
-    """Drop single steps from the end / the front, switch to scalars."""
+    """Drop single steps from the end / the front, switch to scalars, drop the second world."""
     ops = case['ops']
+    if case['config'].get('second') is not None:
+        # single-world version of the history: ops of the second world dropped, batched calls reduced to the first world
+        c = copy.deepcopy(case)
+        del c['config']['second']
+        keep = []
+        for op in c['ops']:
+            if op[0] == 'orbit.set_states':
+                ent = op[1]['entries'][0]
+                if 0 in op[1]['order'] and ent:
+                    keep.append(['orbit.set_state', ent, op[2]])
+            elif _op_world(op) == 0:
+                keep.append(op[:3])
+        if keep:
+            c['ops'] = keep
+            c['check'] = [True] * len(keep)
+            yield c
     for i in range(len(ops) - 1, -1, -1):
         if len(ops) > 1:
             c = copy.deepcopy(case)
@@ -509,9 +635,10 @@ def shrink_hints(case):
         c = copy.deepcopy(case)
         c['config']['array'] = False
         for op in c['ops']:
-            for f, v in op[1].items():
-                if isinstance(v, list):
-                    op[1][f] = v[0]
+            for d in (op[1]['entries'] if op[0] == 'orbit.set_states' else [op[1]]):
+                for f, v in d.items():
+                    if isinstance(v, list):
+                        d[f] = v[0]
         yield c
     if case['config'].get('host_tides'):
         c = copy.deepcopy(case)
@@ -531,11 +658,26 @@ def _val(v):
     return np.asarray(v, dtype=np.float64) if isinstance(v, list) else v
 
 
-def _build(cfg, fixed_q=None, fixed_dt=None, temperatures=None):
-    """A fresh star + world + orbit for the configuration (world in the state its config ships with).
-    Returns (world, orbit, tidal host); the host is the star itself unless cfg[host_tides]."""
-    from TidalPy.structures import build_from_world, build_world
-    from TidalPy.structures.orbit import PhysicsOrbit
+def _world_cfgs(cfg):
+    """Per-world configuration dicts: [first world] or [first, second]; array mode and host family are shared."""
+    out = [cfg]
+    sec = cfg.get('second')
+    if sec:
+        wc = dict(sec)
+        wc['array'] = cfg['array']
+        wc['host_tides'] = bool(cfg.get('host_tides'))
+        wc['_second'] = True
+        out.append(wc)
+    return out
+
+
+def _op_world(op):
+    return int(op[3]) if len(op) > 3 else 0
+
+
+def _build_world(cfg, fixed_q=None, fixed_dt=None, temperatures=None):
+    """One fresh tidal world for a per-world configuration (in the state its config ships with), no orbit yet."""
+    from TidalPy.structures import build_from_world
     shard_setup()
     base = _S[cfg['base']][cfg['blank']]
     b = BASES[cfg['base']]
@@ -556,9 +698,22 @@ def _build(cfg, fixed_q=None, fixed_dt=None, temperatures=None):
             tides['fixed_dt'] = fixed_dt
         new = {'force_spin_sync': cfg['sync'], 'type': 'simple_tidal', 'mass': b['mass'], 'slices': 100,
                'tides_on': True, 'tides': tides}
-    world = build_from_world(base, new_config=new)
+    world = build_from_world(base, new_config=new, new_name='second_world' if cfg.get('_second') else None)
     for lname, T in (temperatures or {}).items():
         getattr(world, lname).set_temperature(_val(T))
+    return world
+
+
+def _build(cfg, models=None):
+    """A fresh star + world(s) + orbit for the configuration (worlds in the state their configs ship with; fixed_q/dt and
+    layer temperatures of `models` are placed at build time).  Returns (worlds, orbit, tidal host); the host is the star
+    itself unless cfg[host_tides]."""
+    from TidalPy.structures import build_world
+    from TidalPy.structures.orbit import PhysicsOrbit
+    wcfgs = _world_cfgs(cfg)
+    models = models or [_new_model() for _ in wcfgs]
+    worlds = [_build_world(wc, fixed_q=m['fixed_q'], fixed_dt=m['fixed_dt'], temperatures=m['T']) for wc, m in zip(wcfgs, models)]
+    bodies = worlds[0] if len(worlds) == 1 else list(worlds)
     star = build_world('55cnc')
     if cfg.get('host_tides'):
         # second family (as Test_SetW_OOP_OrbitTides/test_c): star + a separate dissipating HOST (a star that is its own tidal
@@ -569,11 +724,11 @@ def _build(cfg, fixed_q=None, fixed_dt=None, temperatures=None):
               'tides': {'model': 'global_approx', 'use_ctl': False, 'fixed_q': 1.0e4, 'static_k2': 0.4,
                         'eccentricity_truncation_lvl': cfg['trunc'], 'max_tidal_order_l': 2, 'obliquity_tides_on': False}}
         host = build_world('vhost', hc)
-        orbit = PhysicsOrbit(star, tidal_host=host, tidal_bodies=world)
+        orbit = PhysicsOrbit(star, tidal_host=host, tidal_bodies=bodies)
         host.set_state(spin_period=HOST_SPIN_PERIOD)
-        return world, orbit, host
-    orbit = PhysicsOrbit(star, tidal_host=star, tidal_bodies=world)
-    return world, orbit, star
+        return worlds, orbit, host
+    orbit = PhysicsOrbit(star, tidal_host=star, tidal_bodies=bodies)
+    return worlds, orbit, star
 
 
 def _new_model():
@@ -589,7 +744,7 @@ def _layer_name(cfg, which):
 
 def _apply_model(model, cfg, op):
     """Update the last-write model; returns the set of model fields the op wrote."""
-    kind, kw, _ = op
+    kind, kw = op[0], op[1]
     changed = set()
     # the order mirrors the documented semantics: an orbital-size write re-locks a spin-synchronous world
     for f, v in kw.items():
@@ -615,8 +770,32 @@ def _apply_model(model, cfg, op):
     return changed
 
 
+SET_STATES_LISTS = (('eccentricity', 'eccentricities'), ('semi_major_axis', 'semi_major_axes'),
+                    ('orbital_frequency', 'orbital_frequencies'), ('orbital_period', 'orbital_periods'))
+
+
+def _apply_set_states(worlds, orbit, op):
+    """orbit.set_states(signatures, <per-field lists with None for 'leave this world alone'>)"""
+    _kind, kw, defer = op[:3]
+    order, entries = kw['order'], kw['entries']
+    lists = {}
+    for field, listname in SET_STATES_LISTS:
+        col = [_val(entries[k][field]) if field in entries[k] else None for k in order]
+        if any(x is not None for x in col):
+            lists[listname] = col
+    sigs = [worlds[k] for k in order]
+    if defer:
+        orbit.set_states(sigs, call_orbit_change=False, **lists)
+        for k in order:
+            if entries[k]:
+                orbit.orbit_changed(worlds[k], orbital_freq_changed=any(f in ORB_KEYS for f in entries[k]),
+                                    eccentricity_changed='eccentricity' in entries[k])
+    else:
+        orbit.set_states(sigs, **lists)
+
+
 def _apply_op(world, orbit, cfg, op):
-    kind, kw, defer = op
+    kind, kw, defer = op[:3]
     vals = {f: _val(v) for f, v in kw.items() if f not in ('layer', 'via')}
     if kind == 'orbit.set_state':
         if defer:
@@ -671,25 +850,28 @@ def _apply_op(world, orbit, cfg, op):
         raise KeyError(kind)
 
 
-def _fresh(cfg, model):
-    world, orbit, star = _build(cfg, fixed_q=model['fixed_q'], fixed_dt=model['fixed_dt'], temperatures=model['T'])
-    if model['time'] is not None:
-        orbit.time = _val(model['time'])
-    okw = {}
-    if model['orb'] is not None:
-        okw[model['orb'][0]] = _val(model['orb'][1])
-    if model['e'] is not None:
-        okw['eccentricity'] = _val(model['e'])
-    if okw:
-        orbit.set_state(world, **okw)
-    wkw = {}
-    if model['spin'] is not None and model['spin'][0] != 'locked':
-        wkw[model['spin'][0]] = _val(model['spin'][1])
-    if model['obliquity'] is not None:
-        wkw['obliquity'] = _val(model['obliquity'])
-    if wkw:
-        world.set_state(**wkw)
-    return world, orbit, star
+def _fresh(cfg, models):
+    """Fresh star + world(s) + orbit placed directly into the model state(s): one orbit.set_state and one world.set_state
+    per world."""
+    worlds, orbit, star = _build(cfg, models)
+    if models[0]['time'] is not None:
+        orbit.time = _val(models[0]['time'])
+    for world, model in zip(worlds, models):
+        okw = {}
+        if model['orb'] is not None:
+            okw[model['orb'][0]] = _val(model['orb'][1])
+        if model['e'] is not None:
+            okw['eccentricity'] = _val(model['e'])
+        if okw:
+            orbit.set_state(world, **okw)
+        wkw = {}
+        if model['spin'] is not None and model['spin'][0] != 'locked':
+            wkw[model['spin'][0]] = _val(model['spin'][1])
+        if model['obliquity'] is not None:
+            wkw['obliquity'] = _val(model['obliquity'])
+        if wkw:
+            world.set_state(**wkw)
+    return worlds, orbit, star
 
 
 # ---------------------------------------------------------------------------------------------------
@@ -720,7 +902,10 @@ def _observe(world, orbit, cfg):
         for name in ('tidal_heating_global', 'dUdM', 'dUdw', 'dUdO'):
             v = getattr(host, name)
             out['host_' + name] = None if v is None else np.asarray(v)
-        out['dual_body'] = None if orbit._last_calc_used_dual_body is None else np.asarray(float(orbit._last_calc_used_dual_body))
+        # `_last_calc_used_dual_body` describes the orbit's LAST derivative calculation, whichever world it was for
+        single = len(orbit.tidal_objects) <= 2
+        out['dual_body'] = None if (orbit._last_calc_used_dual_body is None or not single) \
+            else np.asarray(float(orbit._last_calc_used_dual_body))
     else:
         for name in HOST_QUANTITIES:
             out[name] = None
@@ -1022,54 +1207,96 @@ def extra_coverage(tier, merged):
             'functional_public_scale_fallback': merged.get('labels', {}).get('cancel-scale:public-fallback', 0)}
 
 
+def _entry_kinds(entry):
+    return (any(f in ORB_KEYS for f in entry), 'eccentricity' in entry)
+
+
 def evaluate(case):
     shard_setup()
     _COUNT['n'] += 1
     cfg = case['config']
     ops = case['ops']
     check = case.get('check') or [True] * len(ops)
+    wcfgs = _world_cfgs(cfg)
+    nw = len(wcfgs)
     c = Collector(nontrivial=False)
-    c.label('model:' + cfg['model'], 'base:' + cfg['base'], 'sync:%s' % cfg['sync'], 'obl:%s' % cfg['obl'],
-            'trunc:%d' % cfg['trunc'], 'lmax:%d' % cfg['lmax'], 'array' if cfg['array'] else 'scalar', 'blank:%s' % cfg['blank'])
-    if cfg['model'] == 'layered':
-        c.label('rheology:' + cfg['rheology'], 'cooling:' + cfg.get('cooling', 'off'))
-    else:
-        c.label('host_tides:%s' % bool(cfg.get('host_tides')))
+    c.label('worlds:%d' % nw, 'array' if cfg['array'] else 'scalar')
+    for wc in wcfgs:
+        c.label('model:' + wc['model'], 'base:' + wc['base'], 'sync:%s' % wc['sync'], 'obl:%s' % wc['obl'],
+                'trunc:%d' % wc['trunc'], 'lmax:%d' % wc['lmax'], 'blank:%s' % wc['blank'])
+        if wc['model'] == 'layered':
+            c.label('rheology:' + wc['rheology'], 'cooling:' + wc.get('cooling', 'off'))
+        else:
+            c.label('host_tides:%s' % bool(cfg.get('host_tides')))
     with repo_call('build'):
-        world, orbit, star = _build(cfg)
-    model = _new_model()
-    freq_seen = False
+        worlds, orbit, star = _build(cfg)
+    models = [_new_model() for _ in wcfgs]
+    freq_seen = [False] * nw
     nontrivial = False
-    pending = set()
+    pending = [set() for _ in wcfgs]      # per world: everything written since the last step at which the invariant held
     for i, op in enumerate(ops):
-        live = world.tidal_heating_global is not None
-        changed = _apply_model(model, cfg, op)
-        pending |= changed            # everything written since the last step at which the invariant held
-        cname = _changed_name(pending)
-        c.label('op:' + op[0])
+        live = [w.tidal_heating_global is not None for w in worlds]
+        kind = op[0]
+        batched = kind == 'orbit.set_states'
+        # ---- model update: which world(s) does the op write?
+        changed = [set() for _ in wcfgs]
+        if batched:
+            order, entries = op[1]['order'], op[1]['entries']
+            for k in order:
+                changed[k] = _apply_model(models[k], wcfgs[k], [kind, entries[k]])
+            kinds = [_entry_kinds(entries[k]) for k in order]
+            if len(order) > 1 and kinds[0] != kinds[1]:
+                c.label('batch:mixed')
+                # the stale-prone shape: an earlier world of the list gets a kind of change the LAST world does not get
+                if any(a and not b for a, b in zip(kinds[0], kinds[-1])) and live[order[0]]:
+                    c.label('batch:mixed-uncovered-live')
+                    nontrivial = True
+        elif kind == 'orbit.time':
+            for k in range(nw):            # one universal time per orbit
+                changed[k] = _apply_model(models[k], wcfgs[k], op)
+        else:
+            changed[_op_world(op)] = _apply_model(models[_op_world(op)], wcfgs[_op_world(op)], op)
+        c.label('op:' + kind)
         if op[2]:
             c.label('deferred')
-        only = None
-        if changed == {'e'}:
-            only = 'e'
-        elif changed in ({'obliquity'}, {'fixed_q'}, {'fixed_dt'}):
-            only = next(iter(changed))
-        elif len(changed) == 1 and next(iter(changed)).startswith('temperature:tidal'):
-            only = 'temperature'
-        if only is not None and freq_seen and live:
-            c.label('stale:%s_only_after_freq' % only)
-            nontrivial = True
-        if 'orb' in changed or 'spin' in changed:
-            freq_seen = True
-        sig = {'model': cfg['model'], 'field_changed': cname}
+        for k in range(nw):
+            pending[k] |= changed[k]
+            only = None
+            if changed[k] == {'e'}:
+                only = 'e'
+            elif changed[k] in ({'obliquity'}, {'fixed_q'}, {'fixed_dt'}):
+                only = next(iter(changed[k]))
+            elif len(changed[k]) == 1 and next(iter(changed[k])).startswith('temperature:tidal'):
+                only = 'temperature'
+            if only is not None and freq_seen[k] and live[k]:
+                c.label('stale:%s_only_after_freq' % only)
+                nontrivial = True
+            if 'orb' in changed[k] or 'spin' in changed[k]:
+                freq_seen[k] = True
+
+        def sig_for(k):
+            name = _changed_name(pending[k])
+            if not name and nw > 1:
+                name = 'none(other world: %s)' % _changed_name(pending[1 - k])
+            sg = {'model': wcfgs[k]['model'], 'field_changed': name}
+            if nw > 1:
+                sg['worlds'] = 2
+            if batched:
+                sg['via'] = 'orbit.set_states'
+            return sg
+        kop = _op_world(op) if not batched else op[1]['order'][0]
+        # ---- apply to the history objects
         try:
-            with repo_call('op:' + op[0]):
-                _apply_op(world, orbit, cfg, op)
+            with repo_call('op:' + kind):
+                if batched:
+                    _apply_set_states(worlds, orbit, op)
+                else:
+                    _apply_op(worlds[_op_world(op)], orbit, wcfgs[_op_world(op)], op)
         except RepoRaised as err:
             # does a fresh world put into the same state raise as well?  then it is not a history effect
             try:
                 with repo_call('fresh'):
-                    _fresh(cfg, model)
+                    _fresh(cfg, models)
                 fresh_raises = None
             except RepoRaised as err2:
                 fresh_raises = type(err2.exc).__name__
@@ -1079,84 +1306,101 @@ def evaluate(case):
                 c.label('both-raise', 'both-raise:' + fresh_raises)
                 _COUNT['both'] += 1
                 break
-            c.fail(dict(sig, clause='exception', quantity=type(err.exc).__name__, via=op[0], where=_where(err.exc)),
+            c.fail(dict(sig_for(kop), clause='exception', quantity=type(err.exc).__name__, via=kind, where=_where(err.exc)),
                    'history raised %s: %s (fresh world in the same state: %s). %s'
                    % (type(err.exc).__name__, err.exc, fresh_raises or 'no exception', _describe(cfg, ops, i)))
             break
         if not check[i] and i != len(ops) - 1:
             continue
-        # ---- invariant ----
+        # ---- invariant, for EVERY world of the orbit ----
+        okm = True
         with repo_call('observe'):
-            obs = _observe(world, orbit, cfg)
-            okm = _check_model(c, sig, world, orbit, star, cfg, model)
+            obs = [_observe(w, orbit, wc) for w, wc in zip(worlds, wcfgs)]
+            for k in range(nw):
+                okm = okm and _check_model(c, sig_for(k), worlds[k], orbit, star, wcfgs[k], models[k])
         if not okm:
             c.fails[-1]['detail'] += ' ' + _describe(cfg, ops, i)
             break
         try:
             try:
                 with repo_call('fresh'):
-                    fworld, forbit, fstar = _fresh(cfg, model)
-                    fobs = _observe(fworld, forbit, cfg)
+                    fworlds, forbit, fstar = _fresh(cfg, models)
+                    fobs = [_observe(w, forbit, wc) for w, wc in zip(fworlds, wcfgs)]
             except RepoRaised as err:
                 # building the reference is pure as well: retry once (see the functional clause)
                 c.label('retried:' + type(err.exc).__name__)
                 with repo_call('fresh'):
-                    fworld, forbit, fstar = _fresh(cfg, model)
-                    fobs = _observe(fworld, forbit, cfg)
+                    fworlds, forbit, fstar = _fresh(cfg, models)
+                    fobs = [_observe(w, forbit, wc) for w, wc in zip(fworlds, wcfgs)]
         except RepoRaised as err:
             c.label('fresh-raises:' + type(err.exc).__name__)
-            c.fail(dict(sig, clause='exception', quantity=type(err.exc).__name__, via='fresh-only', where=_where(err.exc)),
+            c.fail(dict(sig_for(kop), clause='exception', quantity=type(err.exc).__name__, via='fresh-only', where=_where(err.exc)),
                    'the history reached this state without an exception but a fresh world placed into it raised %s: %s. %s'
                    % (type(err.exc).__name__, err.exc, _describe(cfg, ops, i)))
             break
         bad = False
-        for q in QUANTITY_ORDER:
-            d, note = _cmp(obs[q], fobs[q])
-            if d > _WORST.get(('fresh', q), 0.0) and d <= RTOL:
-                _WORST[('fresh', q)] = d
-            if not d <= RTOL:
-                c.fail(dict(sig, clause='fresh', quantity=q),
-                       '%s after step %d (%s): history world | fresh world = %s. %s' % (q, i, op[0], note, _describe(cfg, ops, i)))
-                bad = True
+        for k in range(nw):
+            for q in QUANTITY_ORDER:
+                d, note = _cmp(obs[k][q], fobs[k][q])
+                if d > _WORST.get(('fresh', q), 0.0) and d <= RTOL:
+                    _WORST[('fresh', q)] = d
+                if not d <= RTOL:
+                    c.fail(dict(sig_for(k), clause='fresh', quantity=q),
+                           '%s of world %d (%s) after step %d (%s): history world | fresh world = %s. %s'
+                           % (q, k, wcfgs[k]['model'], i, kind, note, _describe(cfg, ops, i)))
+                    bad = True
+                    break
+            if bad:
                 break
         if bad:
             break
-        pending = set()
-        if obs['tidal_heating_global'] is not None:
+        sigs_now = [sig_for(k) for k in range(nw)]
+        pending = [set() for _ in wcfgs]
+        if all(o['tidal_heating_global'] is not None for o in obs):
             c.label('live-checked')
-        if obs.get('dual_body') is not None and float(obs['dual_body']) == 1.0 and obs['eccentricity_time_derivative'] is not None:
+        if nw > 1 and batched and all(o['tidal_heating_global'] is not None for o in obs):
+            c.label('batch:both-live-checked')
+        o0 = obs[0]
+        if o0.get('dual_body') is not None and float(o0['dual_body']) == 1.0 and o0['eccentricity_time_derivative'] is not None:
             c.label('dual-body-checked')
         # not asserted (outside the quantities the property lists), only counted: thermal side of a layered world
-        if cfg['model'] == 'layered':
-            for name in ('surface_temperature', 'insolation_heating'):
-                if not _exact(_num(getattr(world, name)), _num(getattr(fworld, name))):
-                    c.label('unlisted-differs:' + name)
-        if cfg['model'] != 'layered':
+        for k in range(nw):
+            if wcfgs[k]['model'] == 'layered':
+                for name in ('surface_temperature', 'insolation_heating'):
+                    if not _exact(_num(getattr(worlds[k], name)), _num(getattr(fworlds[k], name))):
+                        c.label('unlisted-differs:' + name)
+        for k in range(nw):
+            wc = wcfgs[k]
+            if wc['model'] == 'layered':
+                continue
             try:
                 with repo_call('quick_tidal_dissipation'):
-                    fun = _functional(world, star, cfg)
+                    fun = _functional(worlds[k], star, wc)
             except RepoRaised as err:
                 # the functional call is pure: a deterministic failure repeats, a numba cache race between cold shards does not
                 c.label('retried:' + type(err.exc).__name__)
                 with repo_call('quick_tidal_dissipation'):
-                    fun = _functional(world, star, cfg)
+                    fun = _functional(worlds[k], star, wc)
             if fun is not None:
                 c.label('functional-checked')
                 if fun['_fallback']:
                     c.label('cancel-scale:public-fallback')
                 for q in QUANTITY_ORDER:
-                    if q not in fun or (cfg.get('host_tides') and q in SINGLE_BODY_ONLY):
+                    # with a dissipating host the derivatives of its tide raiser (the first world) are dual-body
+                    if q not in fun or (cfg.get('host_tides') and k == 0 and q in SINGLE_BODY_ONLY):
                         continue
-                    d, note = _cmp(obs[q], fun[q], fun['_scale'].get(q))
-                    if d > _WORST.get((cfg['model'], q), 0.0) and d <= fun['_rtol']:
-                        _WORST[(cfg['model'], q)] = d
+                    d, note = _cmp(obs[k][q], fun[q], fun['_scale'].get(q))
+                    if d > _WORST.get((wc['model'], q), 0.0) and d <= fun['_rtol']:
+                        _WORST[(wc['model'], q)] = d
                     if not d <= fun['_rtol']:
-                        c.fail(dict(sig, clause='functional', quantity=q),
-                               '%s after step %d (%s): history world | quick_tidal_dissipation = %s. %s'
-                               % (q, i, op[0], note, _describe(cfg, ops, i)))
+                        c.fail(dict(sigs_now[k], clause='functional', quantity=q),
+                               '%s of world %d after step %d (%s): history world | quick_tidal_dissipation = %s. %s'
+                               % (q, k, i, kind, note, _describe(cfg, ops, i)))
                         bad = True
                         break
             if bad:
                 break
+        if bad:
+            break
     c.nontrivial = nontrivial
     return c.result()
